@@ -4,7 +4,7 @@ id=$1; prop=$2; tier=${3:-quick}
 cd /repo || exit 9
 if ! git diff --quiet; then echo "repo dirty"; exit 9; fi
 git apply /verif/seeded/$id/patch.diff || { echo "patch does not apply"; exit 8; }
-cd /verif && ./check $prop --tier $tier > /tmp/try_${id}_${prop}.out 2>&1; rc=$?
+cd /verif && FVC_EVIDENCE_DIR=/tmp/seed_evidence ./check $prop --tier $tier > /tmp/try_${id}_${prop}.out 2>&1; rc=$?
 git -C /repo checkout -- .
 grep -c '^VIOLATION' /tmp/try_${id}_${prop}.out | sed "s/^/seed=$id prop=$prop rc=$rc violations=/"
 tail -1 /tmp/try_${id}_${prop}.out
